@@ -16,13 +16,13 @@
    out): arbitrary nesting, arbitrary index paths, all payload kinds (list, dict with/without default, string,
    vector, bytes, struct instance); statements  x[p] = e,  every x[p] = e (p with slices),  x[p] f= e  (append ++ +
    |. -. || |..),  x[p] f= [pop|remove|consume y[q]]  (a right-hand side that mutates, also the target itself: the old value
-   is read first),  (x[p][k] = d) f= e  (op-assign with a default for a missing dictionary key),  [y[q] =] pop|remove|consume x[p]  (remove also by slice),  swap x[p], y[q],
+   is read first),  (x[p][k] = d) f= e  (op-assign with a default for a missing dictionary key),  (x[p] and y[q] ..) f= e  (op-assign to an and-pattern),  [y[q] =] pop|remove|consume x[p]  (remove also by slice),  swap x[p], y[q],
    for (it <- x[p]) (simple statements)  with the cloning/draining iterator;  expressions  literal, x[p] (also
    slices), getter closure, [e..], e{k = e'}, call of a function that mutates its parameter (incl. `every`).
    Write paths of the non-`every` forms contain no slice (that is todo!() in set_index, finding F11).
-   NOT covered by the theorems (`sfrag` is false for them; spec and machine define them and they are checked by the
+   NOT covered by the theorems (`sfrag` is false for it; spec and machine define it and it is checked by the
    correspondence and by C02's Rc-graph comparison only):  every x[p] f= e  (SEveryOp, modify_every: private copy, all or
-   nothing)  and  (x[p] and y[q] ..) f= e  (SAndOp, op-assign to an and-pattern).  Builtins outside `bop` are outside the model. *)
+   nothing).  Builtins outside `bop` are outside the model. *)
 From Coq Require Import ZArith List Bool.
 From NV Require Import Rc.ValueSem Rc.Heap Rc.Cow Rc.Heap_proofs Rc.Cow_proofs Rc.For_proofs Rc.Corollaries_proofs.
 Import ListNotations.
@@ -132,3 +132,22 @@ Example C01_nonvacuous_with_default :
   map (abs_val 6 (mheap (final_cow (init_state 3) ops))) (roots (final_cow (init_state 3) ops))
     = map Some (final_value (repeat VNull 3) ops).
 Proof. repeat split; reflexivity. Qed.
+
+(* non-vacuity of the and-pattern op-assign `(x[p] and y[q] ..) f= e`: two targets; a repeated target (both assignments start
+   from the value read first); three targets where the operator raises on the second: the first stays updated, the
+   failing one is left null, the third is untouched; the alias v3 keeps the first value of v1 throughout *)
+Example C01_nonvacuous_and_pattern :
+  let ops := [Simple (SAssign 1 [] (ELit (VList [VInt 1; VInt 2])));
+              Simple (SAssign 2 [] (ELit (VList [VList [VInt 4]; VInt 5])));
+              Simple (SAssign 3 [] (ERead 1 []));
+              Simple (SAndOp [(1, []); (2, [PI 0])] BAppend (ELit (VInt 7)));
+              Simple (SAndOp [(1, []); (1, [])] BAppend (ERead 2 [PI 0]));
+              Simple (SAndOp [(2, [PI 1]); (1, []); (2, [PI 0])] BPlus (ELit (VInt 1)))] in
+  forallb ffrag ops = true /\
+  map snd (run_value (repeat VNull 4) ops) = [true; true; true; true; true; false] /\
+  final_value (repeat VNull 4) ops =
+    [VNull; VNull; VList [VList [VInt 4; VInt 7]; VInt 6]; VList [VInt 1; VInt 2]] /\
+  map (abs_val 6 (mheap (final_cow (init_state 4) ops))) (roots (final_cow (init_state 4) ops))
+    = map Some (final_value (repeat VNull 4) ops).
+Proof. repeat split; reflexivity. Qed.
+
